@@ -65,6 +65,14 @@ class Raised(Exception):
         self.what = what
 
 
+class _Continue(Exception):
+    pass
+
+
+class _Break(Exception):
+    pass
+
+
 class _Return(Exception):
     def __init__(self, v):
         self.v = v
@@ -165,9 +173,22 @@ class Evaluator:
                 it = tuple(it.items()) if getattr(s.iter, "func", None) is None else it
             if not isinstance(it, (tuple, list)):
                 raise _Return(Unknown(f"for over {ast.unparse(s.iter)}"))
+            broke = False
             for item in it:
                 self.assign(s.target, item, env)
-                self.exec_block(s.body, env)
+                try:
+                    self.exec_block(s.body, env)
+                except _Continue:
+                    continue
+                except _Break:
+                    broke = True
+                    break
+            if not broke and s.orelse:
+                self.exec_block(s.orelse, env)
+        elif isinstance(s, ast.Continue):
+            raise _Continue()
+        elif isinstance(s, ast.Break):
+            raise _Break()
         elif isinstance(s, ast.Pass):
             return
         elif isinstance(s, ast.Global):
